@@ -311,7 +311,7 @@ SINKS: Dict[str, List[Tuple[str, str, str]]] = {
     "width": [("write_font", "_ufo", "space.width"), ("color_glyph", "_advance_width", "return"), ("write_font", "_draw_notdef", "StubGlyph")],
     "keep_glyph_names": [("write_font", "_ufo", "KEEP_GLYPH_NAMES"), ("write_font", "_generate_color_font", "formatType")],
     "clipbox_quantization": [("write_font", "_colr_ufo", "_bounds")],
-    "bitmap_resolution": [("nanoemoji", "_run", "write_bitmap_builds"), ("bitmap_tables", "BitmapMetrics.create", "BitmapMetrics")],
+    "bitmap_resolution": [("nanoemoji", "_run", "write_bitmap_builds"), ("bitmap_tables", "_make_cbdt_strike", "index_subtable.imageSize")],
     "fea_file": [("write_font", "_generate_color_font", "features.text")],
     "glyphmap_generator": [("nanoemoji", "_glyphmap_rule", "return"), ("nanoemoji", "_run", "write_glyphmap_rule")],
     "transform": [("color_glyph", "ColorGlyph.create", "ColorGlyph"), ("color_glyph", "_get_gradient_transform", "map_viewbox_to_font_space")],
